@@ -713,7 +713,7 @@ impl StunClient {
             }
         }
     }
-//@before "self.transaction_events.vx_commit("
+//@before "self.transaction_events.vx_commit(" #last
     let ghost evs = events.events@;
     let ghost ids = Seq::new(removed.len(), |k: int| removed[k].transaction_id);
     proof {
